@@ -320,7 +320,9 @@ def both_ends(ctx, rule='bothends-interleave'):
         from .eigsbase import loop_range
         rg = loop_range(fn, loops[0]) if len(loops) == 1 else None
         if not rg or rg[1] != ('lit', '0') or rg[2] != ('P', pn[2]):
-            problems.append('interleave loop is not i in [0, len)')
+            # another way of writing the interleave (e.g. a two-pointer walk): its index algebra is outside what this rule can
+            # evaluate without executing the fragment -- analysis incomplete (exit 2), neither a pass nor an alarm
+            raise AnalysisBroken('argsort: the BothEnds interleave is not written as one loop over the output positions; idiom not supported')
         else:
             var = rg[0]
             # the copy the values are taken from is a copy of the sorted index vector made before the loop
